@@ -67,3 +67,54 @@ package keeper
 //@   ensures complete: forall d:Str :: has(ruleF, poolId, d) ==> 0 <= uf("rule_pos", ruleF, poolId, d) && uf("rule_pos", ruleF, poolId, d) < len(rules)
 //@                                       && rules[uf("rule_pos", ruleF, poolId, d)].Reward == d
 //@ end
+
+// ---------------------------------------------------------------------------------------------
+// updatePool: release rewards for the blocks since the last distribution (C06) and update the pool record
+
+//@ define COLLECTOR = macc("reward_collector")
+//@ define RULE(p, d) = get(ruleF, p, d)
+// the pool releases rewards for this update iff blocks have passed and somebody is staked
+//@ define releasing(pool) = height > pool.LastHeightDistrRewards && pool.TotalLptLocked.Amount > 0
+//@ define relOf(r, pool) = r.RewardPerBlock * (height - pool.LastHeightDistrRewards)
+//@ define updRule(r, pool) = with(with(r, "RewardPerShare", dec(raw(r.RewardPerShare) + tdiv(relOf(r, pool) * DEC_ONE, pool.TotalLptLocked.Amount))),
+//@                                "RemainingReward", r.RemainingReward - relOf(r, pool))
+//@ define ruleOK(r) = !isnil(r.RewardPerShare) && raw(r.RewardPerShare) >= 0 && r.RewardPerBlock >= 0 && r.RemainingReward >= 0 && ufb("denom_valid", r.Reward)
+//@ define rulesOK = forall p:Str :: forall d:Str :: has(ruleF, p, d) ==> ruleOK(get(ruleF, p, d))
+
+//@ func Keeper.updatePool
+//@   property C05, C06
+//@   returns np, collected, err
+//@   requires rulesWF && rulesOK
+//@   requires height >= 0 && pool.LastHeightDistrRewards >= 0 && pool.TotalLptLocked.Amount >= 0 && pool.TotalLptLocked.Amount + amount >= 0
+//@   requires ufb("denom_valid", pool.TotalLptLocked.Denom)
+//@   modifies ruleF, pools, bal
+//@   invariant #1 idx:   rangeindex >= 0 - 1 && rangeindex < len(rules) && releasing(pool)
+//@   invariant #1 shape: (forall j:Int :: 0 <= j && j < len(rules) ==> old(has(ruleF, pool.Id, rules[j].Reward)) && has(ruleF, pool.Id, rules[j].Reward))
+//@                    && (forall a:Int :: forall b:Int :: 0 <= a && a < b && b < len(rules) ==> rules[a].Reward != rules[b].Reward)
+//@                    && (forall d:Str :: old(has(ruleF, pool.Id, d)) ==> 0 <= uf("rule_pos", old(ruleF), pool.Id, d) && uf("rule_pos", old(ruleF), pool.Id, d) < len(rules)
+//@                                         && rules[uf("rule_pos", old(ruleF), pool.Id, d)].Reward == d)
+//@   invariant #1 done_rule:  forall j:Int :: 0 <= j && j <= rangeindex ==> rules[j] == updRule(old(RULE(pool.Id, rules[j].Reward)), pool)
+//@   invariant #1 done_store: forall j:Int :: 0 <= j && j <= rangeindex ==> RULE(pool.Id, rules[j].Reward) == rules[j]
+//@   invariant #1 done_total: forall j:Int :: 0 <= j && j <= rangeindex ==> amt(rewardTotal, rules[j].Reward) == relOf(rules[j], pool)
+//@   invariant #1 done_funded: forall j:Int :: 0 <= j && j <= rangeindex ==> old(RULE(pool.Id, rules[j].Reward)).RemainingReward >= relOf(rules[j], pool)
+//@   invariant #1 todo:  forall j:Int :: rangeindex < j && j < len(rules) ==> rules[j] == old(RULE(pool.Id, rules[j].Reward)) && RULE(pool.Id, rules[j].Reward) == rules[j]
+//@                                         && amt(rewardTotal, rules[j].Reward) == 0
+//@   invariant #1 frame: (forall p:Str :: forall d:Str :: p != pool.Id ==> has(ruleF, p, d) == old(has(ruleF, p, d)) && RULE(p, d) == old(RULE(p, d)))
+//@                    && (forall d:Str :: !old(has(ruleF, pool.Id, d)) ==> !has(ruleF, pool.Id, d) && amt(rewardTotal, d) == 0)
+//@                    && pools == old(pools) && bal == old(bal)
+//@   ensures rules_list: err == nil ==> (forall j:Int :: 0 <= j && j < len(np.Rules) ==> old(has(ruleF, pool.Id, np.Rules[j].Reward)) && has(ruleF, pool.Id, np.Rules[j].Reward)
+//@                       && RULE(pool.Id, np.Rules[j].Reward) == np.Rules[j]
+//@                       && np.Rules[j] == ite(releasing(pool), updRule(old(RULE(pool.Id, np.Rules[j].Reward)), pool), old(RULE(pool.Id, np.Rules[j].Reward)))
+//@                       && (releasing(pool) ==> old(RULE(pool.Id, np.Rules[j].Reward)).RemainingReward >= relOf(old(RULE(pool.Id, np.Rules[j].Reward)), pool)))
+//@   ensures rules_distinct: err == nil ==> (forall a:Int :: forall b:Int :: 0 <= a && a < b && b < len(np.Rules) ==> np.Rules[a].Reward != np.Rules[b].Reward)
+//@   ensures rules_complete: err == nil ==> (forall d:Str :: old(has(ruleF, pool.Id, d)) ==> 0 <= uf("rule_pos", old(ruleF), pool.Id, d) && uf("rule_pos", old(ruleF), pool.Id, d) < len(np.Rules)
+//@                       && np.Rules[uf("rule_pos", old(ruleF), pool.Id, d)].Reward == d)
+//@   ensures rule_frame: (forall p:Str :: forall d:Str :: p != pool.Id ==> has(ruleF, p, d) == old(has(ruleF, p, d)) && RULE(p, d) == old(RULE(p, d)))
+//@                       && (forall d:Str :: !old(has(ruleF, pool.Id, d)) ==> !has(ruleF, pool.Id, d))
+//@   ensures collected: err == nil ==> (forall j:Int :: 0 <= j && j < len(np.Rules) ==> amt(collected, np.Rules[j].Reward) == ite(releasing(pool), relOf(np.Rules[j], pool), 0))
+//@                       && (forall d:Str :: !old(has(ruleF, pool.Id, d)) ==> amt(collected, d) == 0)
+//@   ensures pool_record: err == nil ==> np.TotalLptLocked == coin(pool.TotalLptLocked.Denom, pool.TotalLptLocked.Amount + amount) && np.LastHeightDistrRewards == height
+//@                       && np.Id == pool.Id && np.Creator == pool.Creator && np.Editable == pool.Editable
+//@                       && np.EndHeight == ite(isDestroy, height, pool.EndHeight) && np.StartHeight == ite(isDestroy && pool.StartHeight > height, height, pool.StartHeight)
+//@                       && pools == set(old(pools), pool.Id, with(np, "Rules", zero(np.Rules)))
+//@ end
